@@ -282,6 +282,14 @@ fn scenarios(tier: Tier) -> Vec<Scenario> {
         v.push(base("over-long-line", Kind::Symbols, vec![script_full("content-length", &long)]));
         v.push(base("over-long-line", Kind::Symbols, vec![script_split(&long, &[BODY.len() + 5000, BODY.len() + 100_000], true)]));
     }
+    // a redirect that IS followed (same server, second connection): the URL reported for the download and the
+    // URL noted in the cache entry must agree (a cache-only lookup later reports the noted one)
+    for st in [301u16, 302, 307] {
+        let mut sfull = script_full("content-length", BODY);
+        let mut events = vec![Ev::Send(format!("HTTP/1.1 {st} X\r\nLocation: /mirror/elsewhere/foo.sym\r\nContent-Length: 0\r\nConnection: close\r\n\r\n").into_bytes()), Ev::Close];
+        events.append(&mut sfull.events);
+        v.push(base("followed-redirect", Kind::Symbols, vec![Script { label: format!("{st} to another path on the same server, then 200 content-length full"), events, delivered: Some(BODY.to_vec()) }]));
+    }
     // error statuses and empty bodies
     for st in [404u16, 500, 503, 301, 302, 204] {
         let mut sc = base("status", Kind::Symbols, vec![script_status(st)]);
@@ -564,7 +572,7 @@ fn check_scenario_inner(sc: &Scenario, l: &mut Local) {
                     continue;
                 };
                 // expected URL: base + request target the winning server saw
-                let target = logs[w].last().and_then(|l| l.split_whitespace().nth(1)).unwrap_or("").to_string();
+                let target = logs[w].first().and_then(|l| l.split_whitespace().nth(1)).unwrap_or("").to_string();
                 let url = format!("{}{}", urls[w].trim_end_matches('/'), target);
                 let mut want = scripts[w].delivered.clone().unwrap();
                 if sc.kind == Kind::Symbols {
@@ -631,6 +639,57 @@ fn check_scenario_inner(sc: &Scenario, l: &mut Local) {
     }
 }
 
+/// one supplier, the same file asked for twice: the second answer is the first (memoised), whether the first
+/// was a download or a failure after which the file appeared in the cache directory
+fn check_file_memo(which: u64, l: &mut Local) {
+    let dir = tempfile::tempdir().expect("tempdir");
+    let (cache, tmp) = (dir.path().join("cache"), dir.path().join("tmp"));
+    std::fs::create_dir_all(&cache).unwrap();
+    std::fs::create_dir_all(&tmp).unwrap();
+    let fk = if which % 2 == 0 { FileKind::Binary } else { FileKind::ExtraDebugInfo };
+    let fail_first = which / 2 == 1;
+    let rel = if which % 2 == 0 { "foo.pdb/ABCD1234ABCD1234ABCDABCD12345678a/foo.dll" } else { "foo.pdb/ABCD1234ABCD1234ABCDABCD12345678a/foo.pdb" };
+    let server = start_server();
+    let script = if fail_first { script_status(404) } else { script_full("content-length", BLOB) };
+    for e in &script.events {
+        let _ = server.tx.send(e.clone());
+    }
+    let supplier = HttpSymbolSupplier::new(vec![server.url()], cache.clone(), tmp.clone(), vec![], Duration::from_millis(60_000));
+    let m = module();
+    let res = guard(|| {
+        RT.with(|rt| {
+            rt.block_on(async {
+                let r1 = supplier.locate_file_internal(&m, fk).await;
+                if fail_first {
+                    // the file shows up in the shared cache directory (another process put it there)
+                    let p = cache.join(rel);
+                    std::fs::create_dir_all(p.parent().unwrap()).unwrap();
+                    std::fs::write(&p, BLOB).unwrap();
+                }
+                let r2 = supplier.locate_file_internal(&m, fk).await;
+                (r1, r2)
+            })
+        })
+    });
+    l.eval();
+    server.stop();
+    let detail = json!({"file_kind": format!("{fk:?}"), "first_request": if fail_first { "404, then the file appears in the cache directory" } else { "200 full download" }});
+    match res {
+        Ok((r1, r2)) => {
+            let show = |r: &Result<(PathBuf, Option<reqwest::Url>), FileError>| match r {
+                Ok((p, u)) => format!("Ok({}, {:?})", p.strip_prefix(&cache).unwrap_or(p).display(), u.as_ref().map(|u| u.path().to_string())),
+                Err(e) => format!("Err({e:?})"),
+            };
+            l.outcome(&format!("file memo: first {} second {}", if r1.is_ok() { "Ok" } else { "Err" }, if r2.is_ok() { "Ok" } else { "Err" }));
+            l.distinct(&("memo", which, r1.is_ok(), r2.is_ok()));
+            if show(&r1) != show(&r2) {
+                l.violation("c16:file-lookup-not-memoised", format!("two lookups of one file on one supplier observed different outcomes: {} then {}", show(&r1), show(&r2)), detail);
+            }
+        }
+        Err(p) => l.panic_violation(&p, detail),
+    }
+}
+
 fn main() {
     run_check("C16", |ctx| {
         let scs = Arc::new(scenarios(ctx.tier));
@@ -647,6 +706,7 @@ fn main() {
         ];
         let (s1, s2) = (scs.clone(), scs.clone());
         def.spaces.push(Space::new("scenarios", scs.len() as u64, move |i, l| check_scenario(&s1[i as usize], l), move |i| s2[i as usize].json()).chunked(4).wall(60_000));
+        def.spaces.push(Space::new("file-memo", 4, check_file_memo, |i| json!({"file_kind": (if i % 2 == 0 { "Binary" } else { "ExtraDebugInfo" }), "first_request_fails": i / 2 == 1})).chunked(1).wall(120_000));
         def
     })
 }
